@@ -100,6 +100,8 @@ def stored_fb(ds, root):
 
 def read_with(ds, reader, names):
     kw = dict(split="train", repeat=False, shuffle=0)
+    if reader.endswith("_shuffled"):
+        kw["shuffle"] = 100
     if reader == "sync":
         it = ds.as_numpy_iterator(**kw)
     elif reader == "concurrent":
@@ -112,9 +114,20 @@ def read_with(ds, reader, names):
         async def go():
             return [e async for e in ds.as_numpy_iterator_async(file_parallelism=1, **kw)]
         it = asyncio.run(go())
+    elif reader == "concurrent_shuffled":
+        it = ds.as_numpy_iterator_concurrent(file_parallelism=3, **kw)
+    elif reader == "async_shuffled":
+        async def go2():
+            return [e async for e in ds.as_numpy_iterator_async(file_parallelism=3, **kw)]
+        it = asyncio.run(go2())
+    elif reader == "sync_shuffled":
+        it = ds.as_numpy_iterator(**kw)
     else:
         raise ValueError(reader)
-    return [[dump(e[n]) for n in names] for e in it]
+    # a consumer may keep every example it was handed (list(it), look-ahead, manual batching): all examples are collected first
+    # and only then looked at, so a reader that hands out one reused object or buffer is seen
+    held = list(it)
+    return [[dump(e[n]) for n in names] for e in held]
 
 
 def run_job(job):
@@ -158,7 +171,7 @@ def run_job(job):
                     continue
             try:
                 res["read"][r] = read_with(Dataset(tmp / "d"), r, names)
-            except Exception as ex_:  # noqa: BLE001
+            except BaseException as ex_:  # noqa: BLE001  (a Rust panic surfaces as pyo3's PanicException, a BaseException)
                 res["read"][r] = {"error": f"{type(ex_).__name__}: {str(ex_)[:200]}"}
         return res
     finally:
